@@ -126,7 +126,7 @@ pub enum Outcome {
     PanicNew(String),
     PanicEncode(String),
     EncodeErr(String),
-    Done(Vec<Out>),
+    Done(Vec<Out>, chrono::DateTime<chrono::Utc>, chrono::DateTime<chrono::Utc>),
     Constructed,
 }
 
@@ -146,6 +146,7 @@ pub fn run_pattern(pattern: &str, rec: &RecSpec, accept: Vec<usize>, construct_o
         }
         let mut cap = Cap::new(accept);
         let msg = Pieces(&rec.msg);
+        let t0 = chrono::Utc::now();
         let r = catch(|| {
             enc.encode(
                 &mut cap,
@@ -162,7 +163,7 @@ pub fn run_pattern(pattern: &str, rec: &RecSpec, accept: Vec<usize>, construct_o
         match r {
             Err(p) => Outcome::PanicEncode(p),
             Ok(Err(e)) => Outcome::EncodeErr(e.to_string()),
-            Ok(Ok(())) => Outcome::Done(cap.out),
+            Ok(Ok(())) => Outcome::Done(cap.out, t0, chrono::Utc::now()),
         }
     };
     std::thread::scope(|s| {
@@ -194,7 +195,20 @@ fn flatten(out: &[Out]) -> (String, bool) {
 }
 
 /// Compares captured output with the specification's token sequence.
-pub fn compare(expected: &Value, out: &[Out]) -> Option<Value> {
+/// the text a date token may render to: the format applied to the clock readings around the call
+fn date_candidates(fmt: &str, utc: bool, t0: chrono::DateTime<chrono::Utc>, t1: chrono::DateTime<chrono::Utc>) -> Vec<String> {
+    use chrono::TimeZone;
+    let mut v = vec![];
+    for t in [t0, t1] {
+        let s = if utc { t.format(fmt).to_string() } else { chrono::Local.from_utc_datetime(&t.naive_utc()).format(fmt).to_string() };
+        if !v.contains(&s) {
+            v.push(s);
+        }
+    }
+    v
+}
+
+pub fn compare(expected: &Value, out: &[Out], window: Option<(chrono::DateTime<chrono::Utc>, chrono::DateTime<chrono::Utc>)>) -> Option<Value> {
     let (text, valid) = flatten(out);
     if !valid {
         return Some(json!({"what": "output is not valid UTF-8 (per write segment)", "actual": text}));
@@ -251,6 +265,61 @@ pub fn compare(expected: &Value, out: &[Out]) -> Option<Value> {
                 if rest.starts_with("{ERROR: ") {
                     return Some(json!({"what": "error marker where the specification renders a date", "matched": shown, "rest": rest}));
                 }
+                // the format and the zone follow as tokens: <fmt> chars </fmt> <utc>|<local>
+                let mut j = i;
+                let mut fmt = String::new();
+                if j < toks.len() && toks[j] == "<fmt>" {
+                    j += 1;
+                    while j < toks.len() && toks[j] != "</fmt>" {
+                        fmt.push_str(&sub(toks[j]));
+                        j += 1;
+                    }
+                    let utc = toks.get(j + 1) == Some(&"<utc>");
+                    i = j + 2;
+                    if let Some((t0, t1)) = window {
+                        if fmt == "%+" {
+                            // RFC 3339 with sub-second digits: parse it back and place it in the window
+                            // extent of the timestamp: date T time [.fraction] (Z | +hh:mm | -hh:mm)
+                            let b = rest.as_bytes();
+                            let mut n = 19.min(b.len());
+                            if n < b.len() && b[n] == b'.' {
+                                n += 1;
+                                while n < b.len() && b[n].is_ascii_digit() {
+                                    n += 1;
+                                }
+                            }
+                            if n < b.len() && b[n] == b'Z' {
+                                n += 1;
+                            } else if n < b.len() && (b[n] == b'+' || b[n] == b'-') {
+                                n = (n + 6).min(b.len());
+                            }
+                            match chrono::DateTime::parse_from_rfc3339(&rest[..n]) {
+                                Ok(t) => {
+                                    let off_ok = if utc { t.offset().local_minus_utc() == 0 } else {
+                                        use chrono::{Offset, TimeZone};
+                                        t.offset().local_minus_utc() == chrono::Local.from_utc_datetime(&t0.naive_utc()).offset().fix().local_minus_utc()
+                                    };
+                                    if t.with_timezone(&chrono::Utc) < t0 - chrono::Duration::seconds(1) || t.with_timezone(&chrono::Utc) > t1 + chrono::Duration::seconds(1) || !off_ok {
+                                        return Some(json!({"what": "date differs (instant or zone)", "matched": shown, "rest": rest, "utc": utc}));
+                                    }
+                                    shown.push_str(&rest[..n]);
+                                    rest = &rest[n..];
+                                    continue;
+                                }
+                                Err(_) => return Some(json!({"what": "default date format is not RFC 3339", "matched": shown, "rest": rest})),
+                            }
+                        }
+                        let cands = date_candidates(&fmt, utc, t0, t1);
+                        match cands.iter().find(|c| rest.starts_with(c.as_str())) {
+                            Some(c) => {
+                                shown.push_str(c);
+                                rest = &rest[c.len()..];
+                                continue;
+                            }
+                            None => return Some(json!({"what": "date differs (format or zone)", "matched": shown, "format": fmt, "utc": utc, "expected_one_of": cands, "rest": rest})),
+                        }
+                    }
+                }
                 return None;
             }
             "<APPROX>" | "<HUGE>" | "<date?>" => return None,
@@ -282,7 +351,7 @@ fn check_case(case: &Value, rec: &RecSpec) -> Option<Value> {
         Outcome::EncodeErr(e) => {
             if expects_error { None } else { Some(json!({"what": "encode returned an error for a pattern the specification renders", "error": e})) }
         }
-        Outcome::Done(out) => compare(exp, &out),
+        Outcome::Done(out, t0, t1) => compare(exp, &out, Some((t0, t1))),
     }
 }
 
